@@ -14,6 +14,8 @@ call is rejected before any cell is read, on EVERY memory (no `AllRd` hypothesis
 | `memcmp_s`, `memcmp16_s`, `memcmp32_s` | EOVERFLOW, `*diff = -1` | mem |
 | `wmemcmp_s` | ESLEMAX, `*diff = -1` | mem |
 | `wcscmp_s`, `wcsncmp_s` | EOVERFLOW | str |
+
+(`wcsstr_s`: EOVERFLOW/str, but only after `*src` was read and found non-empty with `dest ≠ src`: not stated.)
 -/
 namespace SafeC.Props.C10
 open SafeC Gen
@@ -92,6 +94,41 @@ theorem srcbos_small_mem (dest dlen src slen sb : Nat) (st : St)
     simp [hd, hs, h1, e2, h2, h3, h4, h6, exec_bind, exec_pure, handlerM, rejected]
 
 example : ∃ dlen slen sb : Nat, 0 < dlen ∧ 0 < slen ∧ dlen ≤ RSIZE_MAX_MEM32 ∧ slen ≤ RSIZE_MAX_MEM32 ∧ sb < slen * 4 :=
+  ⟨4, 3, 11, by decide, by decide, by decide, by decide, by decide⟩
+
+/-- the wide compares: `wmemcmp_s` answers ESLEMAX (mem handler, `*diff = -1`) although `slen` is within the
+limit; `wcscmp_s` / `wcsncmp_s` EOVERFLOW (str handler, `*resultp = 0`) -/
+theorem srcbos_small_wide (dest dmax src smax count sb : Nat) (st : St)
+    (hd : dest ≠ 0) (hs : src ≠ 0) (hpos : 0 < dmax) (hs0 : 0 < smax) (hsl : smax ≤ RSIZE_MAX_WSTR)
+    (hsb : sb < smax * 4) :
+    (dmax ≤ RSIZE_MAX_STR →
+      exec (wcscmp_s dest dmax src smax none (some sb)) st = .ok ((EOVERFLOW, 0), rejected .str EOVERFLOW st) ∧
+      exec (wcsncmp_s dest dmax src smax count none (some sb)) st = .ok ((EOVERFLOW, 0), rejected .str EOVERFLOW st)) ∧
+    (dmax * 4 ≤ RSIZE_MAX_MEM →
+      exec (wmemcmp_s dest dmax src smax none (some sb)) st = .ok ((ESLEMAX, -1), rejected .mem ESLEMAX st)) := by
+  have hw : SIZEOF_WCHAR_T = 4 := rfl
+  have hm : RSIZE_MAX_WSTR * 4 < two64 := by decide
+  have hm2 : RSIZE_MAX_MEM < two64 := by decide
+  have e2 : smax * 4 % two64 = smax * 4 := Nat.mod_eq_of_lt (by omega)
+  have h1 : ¬ dmax = 0 := by omega
+  have h6 : ¬ smax = 0 := by omega
+  have h3 : ¬ smax > RSIZE_MAX_WSTR := by omega
+  have h4 : smax * 4 > sb := hsb
+  refine ⟨fun hl => ?_, fun hl => ?_⟩
+  · have h2 : ¬ dmax > RSIZE_MAX_STR := by omega
+    have key : ∀ uc cnt, exec (wcscmpG uc dest dmax src smax cnt none (some sb)) st =
+        .ok ((EOVERFLOW, 0), rejected .str EOVERFLOW st) := by
+      intro uc cnt
+      unfold wcscmpG
+      simp [hd, hs, h1, h2, h3, h4, h6, hw, e2, exec_bind, exec_pure, handlerS, rejected]
+    exact ⟨by unfold wcscmp_s; exact key _ _, by unfold wcsncmp_s; exact key _ _⟩
+  · have e1 : dmax * 4 % two64 = dmax * 4 := Nat.mod_eq_of_lt (by omega)
+    have h2 : ¬ dmax * 4 > RSIZE_MAX_MEM := by omega
+    have h7 : ¬ dmax * 4 = 0 := by omega
+    unfold wmemcmp_s
+    simp [hd, hs, h2, h4, h6, h7, hw, e1, e2, exec_bind, exec_pure, handlerM, rejected]
+
+example : ∃ dmax smax sb : Nat, 0 < dmax ∧ 0 < smax ∧ smax ≤ RSIZE_MAX_WSTR ∧ sb < smax * 4 ∧ dmax ≤ RSIZE_MAX_STR :=
   ⟨4, 3, 11, by decide, by decide, by decide, by decide, by decide⟩
 
 end SafeC.Props.C10
